@@ -22,7 +22,9 @@ RULE = (
     "first range whose condition holds (bounds read from the implementation's own evaluation of the bound operands); "
     "write_config, write_autoconf, write_cmake, JSON values, write_min_config, sync_deps complete without raising; header "
     "and CMake render hex with 0x, JSON carries the same number.  Non-trivial = some option has an active range and a "
-    "candidate value (user / set / default) outside it, or a differently spelled / lax number was offered.  Distinct = SHA-1."
+    "candidate value (user / set / default) outside it, or a differently spelled / lax number was offered.  In half of the cases a "
+    "second batch of set_value inputs follows after everything has been read once, and all clauses are judged again on the "
+    "incrementally re-evaluated state (signatures end in |after-second-batch).  Distinct = SHA-1."
 )
 ASSUMPTIONS = [
     "an empty value is admitted for non-bool options (the statement allows it when nothing provides a value; whether "
@@ -70,7 +72,14 @@ def _cases(draw):
         else:
             v = gen.gen_value(d, t, CFG, d.weighted(KINDS))
         inputs.append([n, v, d.weighted([(6, "set_value"), (4, "sdkconfig")])])
-    return {"tree": tree, "inputs": inputs, "parser": 2 if d.chance(15) else 1}
+    later = []
+    if d.chance(50):
+        # a second batch through set_value after everything has been read once (what menuconfig / the config server do):
+        # the values exposed then come from incremental re-evaluation
+        for _ in range(d.int(1, 5)):
+            n = d.pick(names)
+            later.append([n, gen.gen_value(d, tree["types"][n], CFG, d.weighted(KINDS)), "set_value"])
+    return {"tree": tree, "inputs": inputs, "later": later, "parser": 2 if d.chance(15) else 1}
 
 
 def strategy(tier):
@@ -127,8 +136,6 @@ def _num(typ, text):
 
 
 def check(case) -> Result:
-    from kconfgen.core import get_json_values, write_cmake
-
     res = Result()
     tree = case["tree"]
     types = tree["types"]
@@ -152,19 +159,42 @@ def check(case) -> Result:
                     f.write(ops.render_hand_file(tree, pending, unset_style=False))
                 k.load_config(path, replace=False)
             k._invalidate_all()
+        except Exception as e:
+            res.fail(exc_sig(e, f"exception|{stage}|"), f"{type(e).__name__} during {stage}: {e}")
+            return res
+        ok = _judge(case, k, d, res, case["inputs"], "")
+        if ok and case.get("later"):
+            try:
+                for name, val, _door in case["later"]:
+                    kc.set_value(k, name, val)
+            except Exception as e:
+                res.fail(exc_sig(e, "exception|later-inputs|"), f"{type(e).__name__} during the second batch of inputs: {e}")
+                return res
+            res.label("second-batch")
+            _judge(case, k, d, res, case["inputs"] + case["later"], "|after-second-batch")
+    return res
 
+
+def _judge(case, k, d, res: Result, inputs, tag: str) -> bool:
+    """Value and writer clauses on the current state of k; False when a writer raised."""
+    from kconfgen.core import get_json_values, write_cmake
+
+    tree = case["tree"]
+    types = tree["types"]
+    if True:
+        stage = "values"
+        try:
             offered = {}
-            for name, val, _door in case["inputs"]:
+            for name, val, _door in inputs:
                 offered.setdefault(name, []).append(val)
 
-            stage = "values"
             out_of_range_candidate = False
             for s in k.unique_defined_syms:
                 t = types[s.name]
                 v = s.str_value
                 why = _wellformed(t, v)
                 if why:
-                    res.fail(f"malformed|{t}|{why}", f"{s.name} ({t}) has value {v!r} (offered: {offered.get(s.name)})")
+                    res.fail(f"malformed|{t}|{why}{tag}", f"{s.name} ({t}) has value {v!r} (offered: {offered.get(s.name)})")
                 if t in ("int", "hex", "float") and v != "":
                     for lo_s, hi_s, cond in s.ranges:
                         if kc.core.expr_value(cond):
@@ -174,7 +204,7 @@ def check(case) -> Result:
                                 break
                             n = _num(t, v)
                             if n is not None and not (lo <= n <= hi):
-                                res.fail(f"out-of-range|{t}", f"{s.name}={v!r} outside the active range [{lo_s.str_value}, {hi_s.str_value}]")
+                                res.fail(f"out-of-range|{t}{tag}", f"{s.name}={v!r} outside the active range [{lo_s.str_value}, {hi_s.str_value}]")
                             cands = [_num(t, x) for x in offered.get(s.name, [])]
                             cands += [_num(t, x.name) for x, _c, _s in list(s.rev_values) + list(s.weak_rev_values)]
                             cands += [_num(t, dv.str_value) for dv, _c in s.defaults if hasattr(dv, "str_value")]
@@ -207,8 +237,8 @@ def check(case) -> Result:
             except ImportError:
                 pass
         except Exception as e:
-            res.fail(exc_sig(e, f"exception|{stage}|"), f"{type(e).__name__} during {stage}: {e}")
-            return res
+            res.fail(exc_sig(e, f"exception|{stage}|") + tag, f"{type(e).__name__} during {stage}: {e}")
+            return False
 
         hdr_vals, _ = obs.parse_header(hdr)
         cm_vals, _, _ = obs.parse_cmake(cm)
@@ -232,7 +262,7 @@ def check(case) -> Result:
                     res.fail(f"render|json|{t}", f"{s.name}: value {v!r} rendered as {jv!r} in JSON")
 
         kinds = set()
-        for name, val, door in case["inputs"]:
+        for name, val, door in inputs:
             t = types[name]
             if t in ("int", "hex", "float"):
                 if _wellformed(t, val) is None and val != "" and val not in (str(_num(t, val)), hex(_num(t, val) or 0) if t == "hex" else ""):
@@ -244,5 +274,5 @@ def check(case) -> Result:
             res.label(kd)
         if out_of_range_candidate:
             res.label("out-of-range-candidate")
-        res.nontrivial = out_of_range_candidate or "alt-spelling" in kinds or "ill-formed-offered" in kinds
-    return res
+        res.nontrivial = res.nontrivial or out_of_range_candidate or "alt-spelling" in kinds or "ill-formed-offered" in kinds
+    return True
